@@ -2,8 +2,9 @@
    Numeric variant (value/operator.rs compares with `a < b`, `a > b` on
    css::Value), css/string.rs: PartialEq for CssString (escape-free strings),
    ordermap.rs (derived Vec equality).  Numbers: Model/Numeric.v.
-   Strings are modelled for escape-free text only: then `unquote` is the
-   identity and equality is text equality whatever the quotes.
+   Strings: css/string.rs PartialEq through Model/CssStr.v (stored value with the
+   escapes the parser keeps - escaped hyphen, space, backslash, control characters -
+   and the quotes; different quotes compare the unquoted texts).
    Since the fix "map equality ignores key order" two
    maps are equal when they have the same length and every entry (k, v) of the
    left one finds, as FIRST entry of the right one with an equal key, an equal
@@ -14,17 +15,22 @@
    for every pair whose numbers have aligned units; Run/C12.v treats a map
    comparison involving numbers with two different units as outside the model. *)
 From Coq Require Import String List ZArith Bool NArith.
-From RV Require Import Base.F64 Base.Text Model.Units Model.Numeric.
+From RV Require Import Base.F64 Base.Text Model.Units Model.Numeric Model.CssStr.
 Import ListNotations.
 Local Open Scope Z_scope.
 
 Inductive value : Type :=
 | VNull | VTrue | VFalse
 | VNum (n : numeric) (calc : bool)
-| VStr (s : list N) (quoted : bool)
+| VStr (s : cssstring)                                   (* stored value (escapes as kept by the parser) + quotes *)
 | VList (xs : list value) (sep : Z) (bracketed : bool)    (* sep: 0 = None, 1 = space, 2 = comma, 3 = slash *)
 | VMap (kvs : list (value * value))
 | VOther.                                                  (* colours, functions, ...: not modelled *)
+
+(* CssString == CssString (Model/CssStr.v css_eq: same quotes: stored values; otherwise both unquoted);
+   the u32 overflow panic of unquote (None) counts as unequal and is not reachable from the generated strings *)
+Definition str_eqb (a b : cssstring) : bool :=
+  match css_eq a b with Some r => r | None => false end.
 
 (* Numeric == Numeric; a unit set outside Model/Units counts as unequal (and as unmodelled, see below) *)
 Definition num_eqb (a b : numeric) : bool :=
@@ -45,7 +51,7 @@ Fixpoint veq (a b : value) {struct a} : bool :=
   match a, b with
   | VNull, VNull | VTrue, VTrue | VFalse, VFalse => true
   | VNum x _, VNum y _ => num_eqb x y
-  | VStr s _, VStr t _ => bytes_eqb s t
+  | VStr s, VStr t => str_eqb s t
   | VList xs s1 b1, VList ys s2 b2 =>
       (fix go (xs ys : list value) : bool :=
          match xs, ys with
